@@ -15,7 +15,8 @@
 (* inputs are handed over: plain numbers in the documented units ("unitless"), quantities in  *)
 (* the documented units ("units"), quantities in scaled units ("scaled": mM vs M, Pa vs bar,  *)
 (* g/mol vs kg/mol, cm2/s vs m2/s) or with the temperature in millikelvin ("scaledT");        *)
-(* `consts` says whether a constants object is passed.  Call sets  warned' = the temperature  *)
+(* `consts` / `uobj` say whether a constants / a units object is passed (all accepted          *)
+(* combinations for the relations that take `constants`).  Call sets  warned' = the temperature  *)
 (* lies outside the documented range.  Invariants: ModesDenoteSameValue (what is handed over, *)
 (* converted back, is the chosen input - in every mode), UnitsCompatible, ResultDimAsNamed    *)
 (* (the dimension algebra of the law gives the dimension of the documented result unit),      *)
@@ -29,7 +30,7 @@ EXTENDS Integers, Sequences, FiniteSets, TLC, Json, Rational, BigNat, BigDec, Te
 
 CONSTANTS
     Points,       \* set of [fn |-> name, a |-> argument record]
-    ModeNames     \* subset of {"unitless", "units", "scaled", "scaledT"}
+    ModeNames     \* subset of {"unitless", "concplain", "units", "scaled", "scaledT"}
 
 VARIABLES fn, args, mode, given, warned, stage, ncalls
 vars == <<fn, args, mode, given, warned, stage, ncalls>>
@@ -139,11 +140,19 @@ LawDim(f) ==
       \* D z e / (kB T): (m2/s) C / ((J/K) K)
       [] f = "mobility" -> DimDiv(DimMul(dDiff, dCharge), DimMul(DimDiv(dEnergy, dTemp), dTemp))
 
-(* modes *)
-Md(n, c) == [name |-> n, consts |-> c]
+(* modes = call configurations.  name: how the inputs are handed over (unitless = plain numbers,  *)
+(* concplain = temperature as a quantity but concentrations as plain numbers, units, scaled,      *)
+(* scaledT); consts: a constants object is passed; uobj: a units object is passed.  The relations  *)
+(* that take `constants` (nernst, mobility) are called in every combination their signature       *)
+(* accepts meaningfully: as soon as the constants carry units (consts or uobj) the dimensional     *)
+(* inputs must be quantities, and they may then be in any compatible unit.                         *)
+Md3(n, c, uo) == [name |-> n, consts |-> c, uobj |-> uo]
+Md(n, c) == Md3(n, c, n \notin {"unitless", "none"})        \* default: units object iff quantities
+ConstModes(names) == {Md3("unitless", FALSE, FALSE)} \cup
+                     ({ Md3(n, c, uo) : n \in names, c \in BOOLEAN, uo \in BOOLEAN } \ { Md3(n, FALSE, FALSE) : n \in names })
 ModesOf(f) ==
-    { m \in (IF f \in {"nernst", "mobility"}
-             THEN { Md(n, c) : n \in {"unitless", "units", "scaled"}, c \in BOOLEAN } \ {Md("unitless", TRUE)}
+    { m \in (IF f = "nernst" THEN ConstModes({"concplain", "units", "scaled"})
+             ELSE IF f = "mobility" THEN ConstModes({"units", "scaled"})
              ELSE IF f \in {"water_density", "water_viscosity", "water_diffusion", "sulfuric_acid_density"}
              THEN { Md(n, FALSE) : n \in {"unitless", "units", "scaledT"} }
              ELSE IF f \in {"density_from_concentration", "lg_solubility_ratio"}
@@ -152,6 +161,7 @@ ModesOf(f) ==
 
 UnitIn(f, a, m) ==
     CASE m.name = "unitless" -> "none"
+      [] m.name = "concplain" -> IF a = "T" THEN DocUnits(f)[a] ELSE "none"
       [] m.name = "units" -> DocUnits(f)[a]
       [] m.name = "scaled" -> ScaledUnit(f, a)
       [] m.name = "scaledT" -> IF a = "T" THEN "mK" ELSE DocUnits(f)[a]
@@ -336,7 +346,7 @@ Again ==
     /\ stage' = "idle" /\ UNCHANGED <<fn, args, mode, given, warned, ncalls>>
 
 GenChoose == \E p \in Points : Choose(p.fn, p.a)
-GenCall == \E n \in ModeNames, c \in BOOLEAN : Call(Md(n, c))
+GenCall == \E n \in ModeNames, c \in BOOLEAN, uo \in BOOLEAN : Call(Md3(n, c, uo))
 Next == GenChoose \/ GenCall
 Spec == Init /\ [][Next]_vars
 Done == stage = "done"
@@ -421,6 +431,7 @@ CaseRec ==
                \* where the iteration starts outside the correlation's range (w > 0.7)
                refusal |-> IF fn = "density_from_concentration" /\ QLt(<<7, 10>>, args.w)
                            THEN "NoConvergence" ELSE ""],
-      cls |-> fn \o "-" \o mode.name \o (IF mode.consts THEN "+c" ELSE "") \o "-" \o RangeClass(fn, args) ]
+      cls |-> fn \o "-" \o mode.name \o (IF mode.consts THEN "+c" ELSE "")
+                 \o (IF mode.uobj = (mode.name # "unitless") THEN "" ELSE "+nou") \o "-" \o RangeClass(fn, args) ]
 Emit == Done => PrintT(<<"CASE", ToJson(CaseRec)>>)
 =============================================================================
